@@ -1,3 +1,7 @@
 """Manifest data that is not per-property (per-property texts live in units.d/<ID>.json)."""
 HOOK_COMMITS = ["062389c", "c056251", "963a2ee"]
 NOT_APPLICABLE = []
+
+# Properties whose checks have been reviewed by the lead and run clean on the
+# unchanged tree; only these are claimed in MANIFEST.json.
+READY = ["C01", "C05"]
